@@ -108,6 +108,7 @@ type runner struct {
 func newRunner(t *testing.T, out *hutil.Out) *runner {
 	e := vs.NewExplorer(t, vs.Opts{MaxPoints: 4000, SpinLimit: 300000}, nil)
 	e.RealStop = out.Deadline()
+	e.Beat = out.BeatPtr()
 	return &runner{e: e, out: out}
 }
 
